@@ -269,22 +269,8 @@ func (r *Replica) crashNow() {
 	defer func() { Timing["crashNow"] += time.Since(t0) }()
 	old := r.Disk.Root()
 	r.Disk.Gen++
-	// The copy must be a point-in-time image, as a killed process leaves behind. The simulation is
-	// single-threaded, so the only writer left is goleveldb's background compaction: repeat the copy
-	// until the directory listing (names, sizes, mtimes) is identical before and after it.
-	for try := 0; ; try++ {
-		before := listTree(old)
-		os.RemoveAll(r.Disk.Root())
-		if err := copyTree(old, r.Disk.Root()); err != nil {
-			panic(HarnessError{"copy data dir: " + err.Error()})
-		}
-		if listTree(old) == before {
-			break
-		}
-		if try > 200 {
-			panic(HarnessError{"data directory never quiesced while copying"})
-		}
-		time.Sleep(2 * time.Millisecond)
+	if err := CopyTreeConsistent(old, r.Disk.Root()); err != nil {
+		panic(HarnessError{"copy data dir: " + err.Error()})
 	}
 	if r.App != nil {
 		r.App.VerifClose()
@@ -309,6 +295,27 @@ func (r *Replica) Shutdown() {
 	}
 	r.App, r.Proxy, r.Exec = nil, nil, nil
 	r.Up = false
+}
+
+// CopyTreeConsistent makes a point-in-time image of a directory whose database is still open, as a
+// killed process leaves behind. The simulation is single-threaded, so the only writer left is
+// goleveldb's background compaction: the copy is repeated until the directory listing (names, sizes,
+// mtimes) is identical before and after it.
+func CopyTreeConsistent(src, dst string) error {
+	for try := 0; ; try++ {
+		before := listTree(src)
+		os.RemoveAll(dst)
+		if err := copyTree(src, dst); err != nil {
+			return err
+		}
+		if listTree(src) == before {
+			return nil
+		}
+		if try > 200 {
+			return fmt.Errorf("data directory never quiesced while copying")
+		}
+		time.Sleep(2 * time.Millisecond)
+	}
 }
 
 func listTree(root string) string {
